@@ -1161,12 +1161,15 @@ Lemma begin_rt_agree V c1 c2 id d : agree V c1 c2 ->
   agree (v_with_RT V) (set_rectypes x1 (rectypes x1) id) (set_rectypes x2 (rectypes x2) id).
 Proof. intros A x1 x2. apply set_rectypes_agree, stack_rule_agree, set_depth_agree, A. Qed.
 
-(* BeginMarker: the new entry and the marker id, written together *)
+Lemma tag_marker_agree V c1 c2 id : agree V c1 c2 -> agree V (tag_marker_entry id c1) (tag_marker_entry id c2).
+Proof. intro A. ag_destruct A c1 c2. unfold tag_marker_entry, set_cur; ag_solve. Qed.
+
+(* BeginMarker: the new entry (tagged with the marker id) and the marker id, written together *)
 Lemma begin_marker_agree V c1 c2 r dt id : agree V c1 c2 ->
   agree (v_with_MK V)
-    (stack_rule r dt None (set_markers c1 id (marked c1) (fwd c1) (refcount c1)))
-    (stack_rule r dt None (set_markers c2 id (marked c2) (fwd c2) (refcount c2))).
-Proof. intro A. apply stack_rule_agree, set_markers_agree, A. Qed.
+    (tag_marker_entry id (stack_rule r dt None (set_markers c1 id (marked c1) (fwd c1) (refcount c1))))
+    (tag_marker_entry id (stack_rule r dt None (set_markers c2 id (marked c2) (fwd c2) (refcount c2)))).
+Proof. intro A. apply tag_marker_agree, stack_rule_agree, set_markers_agree, A. Qed.
 
 Section Sound.
   Variable cfg : rcfg.
@@ -1517,6 +1520,13 @@ Section Sound.
       assert (H : vMK V = true) by (destruct D as (_ & D2 & _); apply D2; exact K).
       destruct s; [apply mark_object_rel; auto| |apply mark_object_rel; auto].
       destruct (array_dtype _); [apply mark_object_rel; auto|exact I].
+    - (* PMarkContainer: the marker id is taken from the current entry first *)
+      rewrite <- Ec.
+      assert (X : forall id, orel V (mark_object cfg (a_dtype a) (set_markers c1 id (marked c1) (fwd c1) (refcount c1)))
+                                    (mark_object cfg (a_dtype a) (set_markers c2 id (marked c2) (fwd c2) (refcount c2)))).
+      { intro id. eapply orel_weaken; [apply vsub_MK|]. apply mark_object_rel; [apply set_markers_agree, A| |reflexivity].
+        eapply cov_same with (c := c1); [| |eapply cov_mono; [apply vsub_MK|exact C]]; destruct c1; reflexivity. }
+      destruct (entry_marker_id (cur c1)); apply X.
     - (* PArrayRuleChunk *)
       apply rule_chunk_rel; auto. destruct D as (_ & _ & D3 & _). apply D3. exact K.
     - apply rule_chunk_rel; auto. destruct D as (_ & _ & D3 & _). apply D3. exact K.
@@ -1665,3 +1675,44 @@ Proof. unfold run_reused, run_fresh. apply rules_call_any. Qed.
 (* a freshly initialised context (Init = allocate + Reset) is the reset of the zero context *)
 Lemma reset_init : reset_rctx init_rctx = init_rctx.
 Proof. reflexivity. Qed.
+
+(* ------------------------------------------------------------------ *)
+(* 6. Marshaler and unmarshaler as owners of their parts                *)
+(* ------------------------------------------------------------------ *)
+
+Lemma cbe_unmarshaler_reuse max cfg h op :
+  run_reused cbe_unmarshaler_init (cbe_unmarshaler_call max cfg) h op
+  = run_fresh cbe_unmarshaler_init (cbe_unmarshaler_call max cfg) op.
+Proof.
+  unfold cbe_unmarshaler_init, cbe_unmarshaler_call. apply pair_reuse.
+  - apply cache_reuse.
+  - apply pair_reuse; [apply reader_reuse|apply rules_reuse].
+Qed.
+
+Lemma cte_marshaler_reuse h op : has_header (snd op) ->
+  run_reused cte_marshaler_init cte_marshaler_call h op = run_fresh cte_marshaler_init cte_marshaler_call op.
+Proof.
+  intro H. unfold cte_marshaler_init, cte_marshaler_call. apply pair_reuse; [apply cache_reuse|apply cte_reuse, H].
+Qed.
+
+Lemma cbe_marshaler_reuse_when h op : Forall enc_closes (map snd h) ->
+  run_reused cbe_marshaler_init cbe_marshaler_call h op = run_fresh cbe_marshaler_init cbe_marshaler_call op.
+Proof.
+  intro H. unfold cbe_marshaler_init, cbe_marshaler_call. apply pair_reuse; [apply cache_reuse|apply cbe_enc_reuse_when, H].
+Qed.
+
+(* the five statements together fail (the CBE encoder's alone does) *)
+Lemma full_refuted :
+  ~ ((forall cfg history es,
+        run_reused init_rctx (rules_call cfg) history es = run_fresh init_rctx (rules_call cfg) es) /\
+     (forall max history reads,
+        run_reused reader_init (reader_call max) history reads = run_fresh reader_init (reader_call max) reads) /\
+     (forall history es,
+        run_reused Cbe.enc_init cbe_enc_call history es = run_fresh Cbe.enc_init cbe_enc_call es) /\
+     (forall history es,
+        run_reused cte_init cte_call history es = run_fresh cte_init cte_call es) /\
+     (forall dynamic history t,
+        run_reused cache_init (cache_call dynamic) history t = run_fresh cache_init (cache_call dynamic) t)).
+Proof.
+  intros (_ & _ & H & _). destruct cbe_enc_refuted as [h [es N]]. apply N, H.
+Qed.
